@@ -59,6 +59,6 @@ example : (runG [m] GroupRec.fresh hist).map (fun ns => ns.map fun n => (n.id, n
     [[], [(some 1, false)], [], [], [], [(some 5, false)], [], []] := by decide
 
 example : Opens hist 5 := by
-  refine ⟨⟨ev .err 50000 5, by decide, by decide⟩, Or.inr ⟨ev .ok 40000 4, by decide, by decide⟩⟩
+  refine ⟨⟨ev .err 50000 5, rfl, by decide⟩, Or.inr ⟨ev .ok 40000 4, rfl, by decide⟩⟩
 
 end Burrow.Props.C14
